@@ -445,7 +445,14 @@ def cloning(ctx: Ctx, rule: str) -> None:
     from ..canon import CanonDict
 
     defs = CanonDict()
-    for s in ast.walk(loop):
+    # helper locals that are not part of the rule's vocabulary are substituted first (a hoisted `delimiter + '.' + parent_state` is that expression)
+    from ..canon import inline_locals
+
+    KEEP = {"clones", "child", "parent_state", "child_state", "state_suffixes", "clone_source", "parents", "parent_source", "to_clone", "old_clones", "parent_object_params",
+            "child_object_params", "clone_config", "clone_name", "variants", "delimiter", "old_clone", "new_clones", "descend_source", "old_bridges"}
+    inl = inline_locals(fn.node, keep=KEEP)
+    loop_inl = next((l for l in ast.walk(inl) if isinstance(l, ast.For) and ast.unparse(l.iter) == "enumerate(parents)"), loop)
+    for s in ast.walk(loop_inl):
         if isinstance(s, ast.Assign) and len(s.targets) == 1:
             defs.setdefault(ast.unparse(s.targets[0]), []).append(ast.unparse(s.value))
     okp = (defs.get("parent_object_params") == [f"{objp}.object_typed_params({parent}.params)"]
